@@ -800,6 +800,18 @@ func genC17(o *cw) {
 			o.c("compile", nil, "/", "-", d[1], "", d[0], "expect=err")
 		}
 	}
+	// every function name x 0..6 arguments (and a misspelt name): the verdict of Compile against the model's
+	for _, f := range fnNames {
+		for ar := 0; ar <= 6; ar++ {
+			args := make([]string, ar)
+			for j := range args {
+				args[j] = []string{"a", "'s'", "1", "true()"}[(j+ar)%4]
+			}
+			o.c("compile", nil, "/", "-", f+"("+strings.Join(args, ", ")+")", "", "arity")
+			o.c("compile", nil, "/", "-", "a["+f+"("+strings.Join(args, ",")+")]", "", "arity")
+		}
+		o.c("compile", nil, "/", "-", f+"x(1)", "", "rename-function", "expect=err")
+	}
 	for i := 0; i < 160*o.tier; i++ {
 		e := g.validExpr()
 		o.features(e)
